@@ -191,15 +191,18 @@ Lemma nadir_is_normalised_subpoint px py pz lat :
   gen_vec_nadir_y px py lat = sy / norm3 sx sy sz /\
   gen_vec_nadir_z px py lat = sz / norm3 sx sy sz.
 Proof.
-  cbv zeta. rewrite <- norm3_pow.
-  repeat split; reflexivity.
+  cbv zeta. unfold gen_vec_nadir_x, gen_vec_nadir_y, gen_vec_nadir_z, gen_subpoint_x, gen_subpoint_y, gen_subpoint_z.
+  cbv zeta. rewrite ?norm3_pow. unfold Rdiv. repeat split; ring.
 Qed.
 
 Lemma xaxis_is_normalised ux uy uz :
   gen_vec_xaxis_x ux uy uz = ux / norm3 ux uy uz /\
   gen_vec_xaxis_y ux uy uz = uy / norm3 ux uy uz /\
   gen_vec_xaxis_z ux uy uz = uz / norm3 ux uy uz.
-Proof. rewrite <- norm3_pow. repeat split; reflexivity. Qed.
+Proof.
+  unfold gen_vec_xaxis_x, gen_vec_xaxis_y, gen_vec_xaxis_z. cbv zeta.
+  rewrite ?norm3_pow. unfold Rdiv. repeat split; ring.
+Qed.
 
 Lemma yaxis_is_normalised px py ux uy uz lat :
   let nx := gen_vec_nadir_x px py lat in let ny := gen_vec_nadir_y px py lat in
@@ -209,7 +212,10 @@ Lemma yaxis_is_normalised px py ux uy uz lat :
   gen_vec_yaxis_x px py ux uy uz lat = cx / norm3 cx cy cz /\
   gen_vec_yaxis_y px py ux uy uz lat = cy / norm3 cx cy cz /\
   gen_vec_yaxis_z px py ux uy uz lat = cz / norm3 cx cy cz.
-Proof. cbv zeta. rewrite <- norm3_pow. repeat split; reflexivity. Qed.
+Proof.
+  cbv zeta. unfold gen_vec_yaxis_x, gen_vec_yaxis_y, gen_vec_yaxis_z, cross_x, cross_y, cross_z. cbv zeta.
+  rewrite ?norm3_pow. unfold Rdiv. repeat split; ring.
+Qed.
 
 Lemma normalised_unit a b c :
   nonzero3 a b c ->
